@@ -113,3 +113,49 @@ Proof.
   destruct (eb_store_ok log2 b p mi wi Hwf ltac:(lia) Hw (Hb (size log2) ltac:(lia) Hsq)) as (b' & H1 & H2 & _).
   exists b'. split; assumption.
 Qed.
+
+(** when addSievingPrime stores nothing, no multiple prime*q (q >= prime coprime to 210) of this or any later segment lies at
+    or below stop (the multiples with a cofactor divisible by 7 are multiples of 7: pre-sieved) *)
+Theorem asp210_none_dead stop p low :
+  prime p -> 11 <= p -> p < 2 ^ 32 -> low mod 30 = 0 -> stop <= MAX64 -> low + 6 <= MAX64 ->
+  addSievingPrime210 stop p low = None ->
+  forall q, p <= q -> coprime210 q -> low + 7 <= p * q -> stop < p * q.
+Proof.
+  intros Hp H11 H32 Hl Hstop Hlow H q Hq Hc Hge. unfold addSievingPrime210, addSievingPrime in H. cbv zeta in H.
+  assert (H7 : 7 <= p) by (clear - H11; lia).
+  assert (Hl6 : low + 6 < U64) by (clear - Hlow; unfold U64, MAX64 in *; lia).
+  rewrite (wrap64_small (low + 6) Hl6) in H.
+  destruct init_factor_bounds as (_ & _ & _ & _ & _ & M210). rewrite M210 in H.
+  set (Q := N.max p ((low + 6) / p + 1)) in *.
+  pose proof wheel210Init_sweep as T. rewrite forallb_forall in T.
+  assert (HQ : Q mod 210 < N.of_nat 210) by (change (N.of_nat 210) with 210; apply N.mod_lt; clear; lia).
+  specialize (T _ (In_Nseq 210 _ HQ)). cbv zeta in T.
+  set (e := nth (N.to_nat (Q mod 210)) wheel210Init (0, 0)) in *.
+  apply andb_true_iff in T. destruct T as [T T4]. apply andb_true_iff in T. destruct T as [T _].
+  apply andb_true_iff in T. destruct T as [T1 _]. apply N.leb_le in T1.
+  assert (Hgap : forall d, d < fst e -> ~ coprime210 (Q + d)).
+  { intros d Hd Hc'. rewrite forallb_forall in T4.
+    assert (Hin : In d (filter (fun d => d <? fst e) (Nseq 10))).
+    { apply filter_In. split; [apply In_Nseq; change (N.of_nat 10) with 10; clear - Hd T1; lia|apply N.ltb_lt; exact Hd]. }
+    specialize (T4 _ Hin). apply negb_true_iff in T4. unfold coprime210 in Hc'.
+    rewrite <- N.add_mod_idemp_l in Hc' by (clear; lia). apply existsb_eqb_In in Hc'. congruence. }
+  assert (HQq : Q + fst e <= q).
+  { apply least_gap210; [exact Hgap| |exact Hc]. unfold Q. apply N.max_lub; [exact Hq|]. apply quotient_le; [clear - H7; lia|exact Hge]. }
+  assert (Hpq : p * (Q + fst e) <= p * q) by (apply N.mul_le_mono_l; exact HQq).
+  assert (HpQ : p * Q <= p * (Q + fst e)) by (apply N.mul_le_mono_l; clear; lia).
+  assert (Hprod : low + 6 < p * Q).
+  { assert (HQ1 : (low + 6) / p + 1 <= Q) by (unfold Q; apply N.le_max_r).
+    assert (p * ((low + 6) / p + 1) <= p * Q) by (apply N.mul_le_mono_l; exact HQ1).
+    pose proof (N.div_mod (low + 6) p ltac:(clear - H7; lia)) as E. pose proof (N.mod_lt (low + 6) p ltac:(clear - H7; lia)) as L.
+    clear - H0 E L. lia. }
+  destruct (N.lt_ge_cases (p * Q) U64) as [Hnw|Hw].
+  - rewrite (wrap64_small (p * Q) Hnw) in H.
+    destruct (N.ltb_spec stop (p * Q)) as [Hs|Hs]; [clear - Hs Hpq HpQ; lia|].
+    destruct (N.ltb_spec (p * Q) (low + 6)) as [Hs2|Hs2]; [clear - Hs2 Hprod; lia|]. cbn [orb] in H.
+    assert (Hpf : p * fst e < U64).
+    { change (2 ^ 32) with 4294967296 in H32. assert (p * fst e <= p * 9) by (apply N.mul_le_mono_l; exact T1). clear - H0 H32. unfold U64. lia. }
+    rewrite (wrap64_small (p * fst e) Hpf) in H.
+    destruct (N.ltb_spec (stop - p * Q) (p * fst e)) as [Hs3|Hs3]; [|discriminate].
+    rewrite N.mul_add_distr_l in Hpq. clear - Hs3 Hpq Hs. lia.
+  - clear - Hw Hpq HpQ Hstop. unfold U64, MAX64 in *. lia.
+Qed.
